@@ -107,7 +107,7 @@ func runC20(r *Rng, n int, replay string) {
 	}
 	// the assertion layer: verdicts of the suite's own tree assertion vs the model
 	_, out := runTestBinary(bin, "^TestAssertLayer$", 120*time.Second, fmt.Sprintf("VERIF_SEED=%d", r.Next()%100000))
-	re := regexp.MustCompile(`^ASSERTCASE (\d+) mask=(\d+) verdict=(true|false) \| (.*)$`)
+	re := regexp.MustCompile(`^ASSERTCASE (\d+) mask=(\d+) verdict=(true|false) \| ?(.*)$`)
 	sc = bufio.NewScanner(strings.NewReader(out))
 	sc.Buffer(make([]byte, 1<<20), 1<<20)
 	for sc.Scan() {
